@@ -445,8 +445,8 @@ fn subsets(n: usize, max: usize, f: &mut dyn FnMut(&[usize])) {
 
 /// exhaustive: every triple over SMALL_POOL with at most `mg` groups (each with its own single
 /// member), at most `mp` kerning pairs over pool names, every glyph set that is a subset of the names
-/// used with at most one element
-fn exhaustive(out: &mut dyn Write, dir: &Path, mg: usize, mp: usize, fmts: &[u32]) {
+/// used with at most one element (`all_gsets = false`: with two or more pairs only the empty glyph set)
+fn exhaustive(out: &mut dyn Write, dir: &Path, mg: usize, mp: usize, fmts: &[u32], all_gsets: bool) {
     let pool = SMALL_POOL;
     let n = pool.len();
     let pairs: Vec<(usize, usize)> = (0..n).flat_map(|a| (0..n).map(move |b| (a, b))).collect();
@@ -470,8 +470,10 @@ fn exhaustive(out: &mut dyn Write, dir: &Path, mg: usize, mp: usize, fmts: &[u32
             }
             // glyph sets: none, or one of the group names
             let mut gsets: Vec<BTreeSet<String>> = vec![BTreeSet::new()];
-            for &gi in gs.iter() {
-                gsets.push([pool[gi].to_string()].into_iter().collect());
+            if all_gsets || ps.len() < 2 {
+                for &gi in gs.iter() {
+                    gsets.push([pool[gi].to_string()].into_iter().collect());
+                }
             }
             for glyphs in gsets {
                 for &fmt in fmts {
@@ -495,11 +497,11 @@ pub fn gen(tier: &str, seed: u64, out: &mut dyn Write) {
     let thorough = tier == "thorough";
     // 1. exhaustive small space
     if thorough {
-        exhaustive(out, &dir, 3, 3, &[2]);
-        exhaustive(out, &dir, 3, 1, &[1]);
+        exhaustive(out, &dir, 3, 3, &[2], true);
+        exhaustive(out, &dir, 3, 1, &[1], true);
     } else {
-        exhaustive(out, &dir, 3, 1, &[2]);
-        exhaustive(out, &dir, 2, 2, &[1]);
+        exhaustive(out, &dir, 3, 1, &[2], true);
+        exhaustive(out, &dir, 2, 2, &[1], false);
     }
     // 2. random triples
     let n = if thorough { 60000 } else { 6000 };
